@@ -312,6 +312,27 @@ func (p *Program) VerifyFunc(fi *FuncInfo) (res *FuncResult) {
 			e.frameObligations(final, c, sc)
 		}
 	}
+	// rely clauses: closed (quantified objects only), reflexive and transitive
+	for _, rl := range c.Relies {
+		if free := freeVarsOfClause(p.CInfo, rl.Expr); len(free) > 0 {
+			res.Unsupported = append(res.Unsupported, fmt.Sprintf("%s: rely clause [%s] mentions %s: only quantified variables are allowed (it is assumed in other functions)", rl.Line, rl.Label, strings.Join(free, ", ")))
+			continue
+		}
+		mk := func() *State {
+			return &State{PC: True, Vars: map[types.Object]Term{}, Heap: map[string]Term{}, Alloc: e.Ctx.Fresh("alloc", SInt), HavocAll: true, HavocID: e.nextHavocID()}
+		}
+		h0, h1, h2 := mk(), mk(), mk()
+		rel := func(a, b *State) Term {
+			saved := e.specOld
+			e.specOld = a
+			t := e.evalSpec(b, rl)
+			e.specOld = saved
+			return t
+		}
+		e.Ctx.AddObligation(res.Func, "lemma", fmt.Sprintf("%s/lemma/%s/reflexive", res.Func, rl.Label), True, rel(h0, h0), rl.Line)
+		t01, t12, t02 := rel(h0, h1), rel(h1, h2), rel(h0, h2)
+		e.Ctx.AddObligation(res.Func, "lemma", fmt.Sprintf("%s/lemma/%s/transitive", res.Func, rl.Label), True, Implies(And(t01, t12), t02), rl.Line)
+	}
 	// read frame: fields the code must not read
 	if os.Getenv("GOVC_READS") != "" {
 		for k := range e.readKeys {
@@ -342,6 +363,47 @@ func (p *Program) VerifyFunc(fi *FuncInfo) (res *FuncResult) {
 	for _, ca := range c.Calls {
 		if !e.callAsserted[ca] {
 			res.Unsupported = append(res.Unsupported, fmt.Sprintf("call assertion [%s] on %s was never reached (hint-mismatch)", ca.Clause.Label, ca.Callee))
+		}
+	}
+	p.buildModsets()
+	if len(c.CallbackMods) > 0 || len(c.Registers) > 0 || len(p.cbsets[fi.Obj]) > 0 {
+		if p.cbNotes == nil {
+			p.cbNotes = append([]string{}, p.CallbackFrameNotes()...)
+		}
+		// a registered callback implementation may write, outside its own package, only what the `callback` clause
+		// of the invoking function allows (that clause is what the invoker's proof assumed)
+		if !p.cbRegDone {
+			p.cbRegDone = true
+			p.cbRegNotes = p.CallbackRegistrationNotes()
+		}
+		for _, n := range p.cbRegNotes {
+			hit := false
+			for cb := range p.cbsets[fi.Obj] {
+				if strings.Contains(n, "callback "+cb+" ") {
+					hit = true
+				}
+			}
+			for _, r := range c.Registers {
+				if strings.Contains(n, "callback "+r+" ") {
+					hit = true
+				}
+			}
+			if hit {
+				res.Unsupported = append(res.Unsupported, n)
+			}
+		}
+		nbad := 0
+		for _, n := range p.cbNotes {
+			f := strings.Split(n, "|")
+			if len(f) == 4 && f[0] == fullFuncName(fi.Obj) {
+				nbad++
+				e.Ctx.AddObligation(res.Func, "frame", fmt.Sprintf("%s/frame/callback/%s/%s", res.Func, f[1], frameLabel(f[2])), True, False, fmt.Sprintf("%s:%d", c.File, c.Line))
+			}
+		}
+		if nbad == 0 {
+			for _, r := range c.Registers {
+				e.Ctx.AddObligation(res.Func, "frame", fmt.Sprintf("%s/frame/callback/%s", res.Func, r), True, True, fmt.Sprintf("%s:%d", c.File, c.Line))
+			}
 		}
 	}
 	e.addAxioms(res)
@@ -549,4 +611,42 @@ func (e *Exec) initCallHistory(st *State, fi *FuncInfo) {
 		}
 		return true
 	})
+}
+
+// freeVarsOfClause: variables a clause mentions other than those bound inside it (quantifiers desugar to
+// function literals) - parameters, receivers, results, locals.
+func freeVarsOfClause(info *types.Info, x ast.Expr) []string {
+	seen := map[string]bool{}
+	bound := map[types.Object]bool{}
+	ast.Inspect(x, func(n ast.Node) bool {
+		if id, ok := n.(*ast.Ident); ok {
+			if o := info.Defs[id]; o != nil {
+				bound[o] = true
+			}
+		}
+		return true
+	})
+	var out []string
+	ast.Inspect(x, func(n ast.Node) bool {
+		id, ok := n.(*ast.Ident)
+		if !ok {
+			return true
+		}
+		v, ok := info.Uses[id].(*types.Var)
+		if !ok || v.IsField() {
+			return true
+		}
+		if bound[v] {
+			return true // bound inside the clause
+		}
+		if v.Parent() != nil && v.Parent().Parent() == types.Universe {
+			return true // package-level variable
+		}
+		if !seen[v.Name()] {
+			seen[v.Name()] = true
+			out = append(out, v.Name())
+		}
+		return true
+	})
+	return out
 }
